@@ -93,6 +93,24 @@ CHECKS["C15"] = dict(category="exploration",
       note="Three open known findings: exact-minimum-length ORF dropped (pinned by TestOrfCounts.test_no_hits), and two origin-crossing-area "
            "gap defects that need min_length < 2*max_overlap (no small repair). Completeness with genes present is not asserted.",
       design="3/C15")
+CHECKS["C18"] = dict(category="exploration",
+      technique="harness-owned schedules (generated per-call delays) over a grid of worker counts x batch sizes x delay patterns, Hypothesis-drawn payloads, oracle = sequential result; injected call faults and timeouts",
+      text="parallel_function / parallel_execute / pre_process_sequences(cpus=k) are run for k=1..16 and batch sizes around k with "
+           "generated delay vectors that force out-of-order completion (observed in ~75% of cases), payloads from ints to annotated "
+           "Records with origin-spanning areas (canonical dump incl. cds_children sections), and compared with the sequential result; "
+           "a raising call, an unpicklable result, a timeout or a killed worker must surface as an exception. Each case runs in its own "
+           "process group so that a hang cannot outlive the case.",
+      note="OS-level interleavings are not enumerated; a worker death without a timeout (multiprocessing blocks forever) is outside the technique.",
+      design="3/C18")
+CHECKS["C07"] = dict(category="exploration",
+      technique="metamorphic testing: all origin rotations of generated circular records and all superior-respecting rule permutations / sub-selections, equality of coordinate-free summaries",
+      text="Generated circular records/rulesets are rotated on the spec level by every offset (L<=60) or by every gene boundary +-1, gene "
+           "middles and spaced offsets (larger L); detection, candidate cluster and region creation are re-run and protoclusters (core and "
+           "member genes per rule), candidates (kind + members), regions (member genes) and definition domains must be identical whenever "
+           "all regions are shorter than half the record. All rule orders keeping superiors first (<=24) and all superior-closed "
+           "sub-selections must give identical protoclusters per rule.",
+      note="Gene membership is read through Record.get_cds_features_within_location (C08). Records on which area creation raises are excluded and counted.",
+      design="3/C07")
 NOT_YET = {}
 
 def main():
